@@ -239,6 +239,17 @@ def ndalign (arange : Nat → List κ) (d : Data κ α) (dim : String) : Except 
   let r ← d.bracketAll arange dim (ndalignCols A)
   .ok (r.addHist "ndalign" ["dim"])
 
+/-- fit(f, data, dim, p0)["popt"]: per trace along `dim` the parameter vector the solver returns, labelled by
+    a leading dimension `popt` followed by the remaining dimensions with their coordinates (as repaired).
+    `solve` is scipy.optimize.curve_fit as a parameter. -/
+def fitPopt (arange : Nat → List κ) (d : Data κ α) (dim : String) (np : Nat) (solve : List α → List α) :
+    Except Err (Data κ α) := do
+  if "popt" ∈ d.dims ∧ dim ≠ "popt" then .error .type else
+  let b ← d.bracket arange dim (fun _ => solve) np (some (arange np))
+  let b1 ← b.reorder [dim]
+  let b2 ← b1.rename dim "popt"
+  .ok { b2 with attrs := [], dattrs := [], hist := [] }
+
 /-- the discrete Fourier transform of x zero-filled to n points; `tw m` = ω^m -/
 def dftList (tw : Nat → α) (n : Nat) (x : List α) : List α :=
   (List.range n).map (fun k =>
